@@ -48,6 +48,12 @@ claimed["C02"]=dict(
    text="For every cache content and every interleaving admitted by the lock-invariant model, IsReplay is proved to be an atomic test-and-set on the set of recorded presentations (true exactly if recorded when the lock was taken; records it; forgets and adds nothing else), AddEntry and ClearOldEntries are proved against the same view, every guarded map access holds the lock, and VerifyAPREQ accepts only after IsReplay answered false. Eviction timing is not yet under contract (listed as not decided).",
    note="Trusted: the lock-invariant abstraction of concurrency (state guarded by the lock arbitrary at each acquisition), map keys compared as values (time.Time by instant), strings.Join uninterpreted, trusted frame for writes through map values.",
    design="4/C02")
+claimed["C03"]=dict(
+   technique="contract-based deductive verification: ghost record of the AP-REQ decision (set by the contract of service.VerifyAPREQ) carried through postconditions of every SPNEGO verification layer, preconditions on the wrapped http.Handler and the identity attached to the request, ghost record of the HTTP response; discharged by z3/cvc5 via gowp",
+   category="proof",
+   text="For every token and request: no verification API (KRB5Token / NegTokenInit / NegTokenResp / SPNEGOToken.Verify, AcceptSecContext) reports success or status COMPLETE unless service.VerifyAPREQ accepted the contained AP-REQ, and the context returned carries exactly the accepted credentials; the HTTP wrapper invokes the inner handler only then (or for an established session) with that identity and answers 401 + WWW-Authenticate (or 500 on session-store failure) otherwise.",
+   note="Trusted: context.WithValue/Value model, ghost contracts for net/http (Error, Header.Set, Handler.ServeHTTP), external session store.",
+   design="4/C03")
 hooks=subprocess.run("git -C /repo log --format='%H %s' | grep ' verif:' | awk '{print $1}'",shell=True,capture_output=True,text=True).stdout.split()
 m={"version":1,
  "setup_cmd":"./setup.sh",
